@@ -88,17 +88,23 @@ Section Envelope.
     ty_msg U (e_msg e) /\ valid_msg U has_codec cenc cdec qerr (e_msg e).
 End Envelope.
 
-(** * handshake: Send writes lp4(AdvertiseAddr); Wait reads ONE chunk of the stream into a zeroed
-    4096-byte buffer and decodes a string from the WHOLE buffer (the count returned by conn.Read is
-    ignored) *)
-Definition hs_buf : nat := 4096.
+(** * handshake: Send writes lp4(AdvertiseAddr).  Wait reads exactly four bytes from the stream
+    (io.ReadFull), rejects an announced length above 4096, reads exactly that many bytes
+    (make([]byte, 4+length)) and decodes the string from them; nothing beyond the handshake is consumed.
+    [stream] is everything the connection delivers before it ends (M5: in arbitrary pieces). *)
+Definition hs_max : N := 4096.
 Definition enc_handshake (addr : bytes) : bytes := put_lp4 addr.
-Definition hs_buffer (chunk : bytes) : bytes :=
-  firstn hs_buf chunk ++ repeat 0 (hs_buf - length (firstn hs_buf chunk)).
-Definition dec_handshake (chunk : bytes) : dres bytes := d_str (hs_buffer chunk).
-(** Wait mutates h.AdvertiseAddr in place: the caller-visible state after a Wait on [chunk] *)
-Definition handshake_wait (old : bytes) (chunk : bytes) : bytes * option merr :=
-  match snd (dec_handshake chunk) with
+Definition dec_handshake : dec bytes :=
+  let+ n := d_u32 in
+  if hs_max <? n then dfail (ME ETooLarge)
+  else let+ _ := dalloc (4 + n) in
+       fun bs => match take_N n bs with
+                 | Ok (a, rest) => (n, MOk (a, rest))     (* ReadString copies the address out of the buffer *)
+                 | Err e => (0, MErr (ME e))
+                 end.
+(** Wait mutates h.AdvertiseAddr in place: the caller-visible state after a Wait on [stream] *)
+Definition handshake_wait (old : bytes) (stream : bytes) : bytes * option merr :=
+  match snd (dec_handshake stream) with
   | MOk (a, _) => (a, None)
   | MErr e => (old, Some e)
   end.
